@@ -11,6 +11,7 @@ import (
 
 	"pgregory.net/rapid"
 
+	"github.com/jirenius/go-res/store"
 	"github.com/jirenius/go-res/store/badgerstore"
 
 	"verifharness/internal/bdb"
@@ -608,6 +609,137 @@ func TestC14BinaryKeys(t *testing.T) {
 		ev.Case(true, evid.Hash("binarykeys14", c.String()), "binary-keys")
 		if r.c14 != "" {
 			rt.Fatalf("%s\ncase: %s", r.c14, c)
+		}
+	})
+}
+
+// inPlaceHistory: an untyped store (values are map[string]interface{}); updates are made the
+// way a handler often does it - read the value inside the write transaction, change the map it
+// was given in place, and pass that same map to Update. The index must follow (C13) and
+// every key-changing update must run the query-change callbacks once with the right old and
+// new keys (C14).
+func inPlaceHistory(rt *rapid.T) (c13, c14 string, updates int) {
+	db, _, cleanup, err := bdb.OpenTemp("cidxinplace")
+	if err != nil {
+		rt.Fatalf("VERIF-INCONCLUSIVE: %v", err)
+	}
+	defer cleanup()
+	st := badgerstore.NewStore(db).SetPrefix(rapid.SampledFrom([]string{"", "pfx"}).Draw(rt, "prefix"))
+	key := func(v interface{}) []byte {
+		m, _ := v.(map[string]interface{})
+		a, _ := m["a"].(string)
+		if a == "" {
+			return nil
+		}
+		return []byte(a)
+	}
+	qs := badgerstore.NewQueryStore(st, func(qs *badgerstore.QueryStore, q url.Values) (*badgerstore.IndexQuery, error) {
+		return &badgerstore.IndexQuery{Index: qs.Index("ia"), KeyPrefix: []byte(q.Get("p")), Limit: -1}, nil
+	})
+	qs.AddIndex(badgerstore.Index{Name: "ia", Key: key})
+	var mu sync.Mutex
+	var log []string
+	qs.OnQueryChange(func(qc store.QueryChange) {
+		mu.Lock()
+		log = append(log, fmt.Sprintf("%s:%s>%s", qc.ID(), key(qc.Before()), key(qc.After())))
+		mu.Unlock()
+	})
+	model := map[string]string{}
+	var want []string
+	n := rapid.IntRange(1, 20).Draw(rt, "nops")
+	for i := 0; i < n; i++ {
+		id := rapid.SampledFrom([]string{"1", "2", "3"}).Draw(rt, "id")
+		a := rapid.SampledFrom([]string{"a", "b", "ab", ""}).Draw(rt, "a")
+		old, exists := model[id]
+		op := rapid.SampledFrom([]string{"create", "inplace", "inplace", "update", "delete"}).Draw(rt, "k")
+		tx := st.Write(id)
+		var err error
+		switch op {
+		case "create":
+			err = tx.Create(map[string]interface{}{"a": a, "n": float64(i)})
+		case "update":
+			err = tx.Update(map[string]interface{}{"a": a, "n": float64(i)})
+		case "inplace":
+			var v interface{}
+			if v, err = tx.Value(); err == nil {
+				m := v.(map[string]interface{})
+				m["a"] = a // the map the store handed out, changed in place
+				m["n"] = float64(i)
+				err = tx.Update(m)
+				updates++
+			}
+		default:
+			err = tx.Delete()
+		}
+		_ = tx.Close()
+		if (err == nil) != ((op == "create") != exists) {
+			return fmt.Sprintf("op %d %s %s: error %v, exists=%v (store contract, see C11)", i, op, id, err, exists), "", updates
+		}
+		if err != nil {
+			continue
+		}
+		if op == "delete" {
+			delete(model, id)
+			a = ""
+		} else {
+			model[id] = a
+		}
+		if old != a {
+			want = append(want, fmt.Sprintf("%s:%s>%s", id, old, a))
+		}
+	}
+	qs.Flush()
+	for _, p := range []string{"", "a", "b", "ab"} {
+		type ent struct{ k, id string }
+		var es []ent
+		for id, k := range model {
+			if k != "" && strings.HasPrefix(k, p) {
+				es = append(es, ent{k, id})
+			}
+		}
+		sort.Slice(es, func(i, j int) bool {
+			if es[i].k != es[j].k {
+				return es[i].k < es[j].k
+			}
+			return es[i].id < es[j].id
+		})
+		var ids []string
+		for _, x := range es {
+			ids = append(ids, x.id)
+		}
+		res, err := qs.Query(url.Values{"p": {p}})
+		got, _ := res.([]string)
+		if err != nil || !sameIDs(got, ids) {
+			c13 = fmt.Sprintf("after the history and Flush: query with prefix %q returns %q (%v), the store gives %q (keys by id: %v)", p, got, err, ids, model)
+			break
+		}
+	}
+	mu.Lock()
+	if fmt.Sprint(log) != fmt.Sprint(want) {
+		c14 = fmt.Sprintf("query-change callbacks (id:old key>new key) %v, the key-changing mutations were %v", log, want)
+	}
+	mu.Unlock()
+	return c13, c14, updates
+}
+
+func TestC13InPlaceUpdates(t *testing.T) {
+	ev := evid.For("C13")
+	rapid.Check(t, func(rt *rapid.T) {
+		c13, _, u := inPlaceHistory(rt)
+		ev.Case(u > 0, evid.Hash("inplace13", u, c13), "in-place-updates")
+		if c13 != "" {
+			rt.Fatalf("%s", c13)
+		}
+	})
+}
+
+func TestC14InPlaceUpdates(t *testing.T) {
+	ev := evid.For("C14")
+	rapid.Check(t, func(rt *rapid.T) {
+		_, c14, u := inPlaceHistory(rt)
+		ev.Case(u > 0, evid.Hash("inplace14", u, c14), "in-place-updates")
+		if c14 != "" {
+			rt.Fatalf("%s", c14)
 		}
 	})
 }
